@@ -10,7 +10,7 @@ REPLAYERS = {'wrapper': replay_wrapper}
 CBF = 'LendingPoolCollectBankFees'
 
 
-def t_collect(world):
+def t_collect(world, oid='C19.a'):
     from specs.C12 import find_accounts
     eng = world.engine(opaque=[r'withdraw_spl_transfer$', r'maybe_take_bank_mint$', r'emit', r'Event', r'anchor_spl::', r'Vec<', r'to_num::<f64>'], merge=False, max_paths=20000)
     from specs.accounts import sum_ata, ATA
@@ -18,7 +18,7 @@ def t_collect(world):
     f = world.fn(r'collect_bank_fees::lending_pool_collect_bank_fees$')
     args = [eng.ex.fresh(ty, 'a%d' % i) for i, (n, ty) in enumerate(f.params)]
     res = eng.run_fn(f, args)
-    ob = Ob('C19.a', 'collect_bank_fees: exactly the whole-token part of each bucket (clamped by remaining liquidity, in the order insurance, group, program) leaves the liquidity vault for insurance vault / fee vault / the global fee wallet\'s ATA; buckets fall by the same amounts',
+    ob = Ob(oid, 'collect_bank_fees: exactly the whole-token part of each bucket (clamped by remaining liquidity, in the order insurance, group, program) leaves the liquidity vault for insurance vault / fee vault / the global fee wallet\'s ATA; buckets fall by the same amounts',
             [f.name], 'handler mode; token CPI opaque; all bucket / liquidity values'); ob.paths = len(res)
     names = STRUCTS[CBF]
     for r, okc in ok_paths(res):
